@@ -51,6 +51,8 @@ pub struct Cfg {
     pub poison: bool,
     /// extra initial states (label, builder)
     pub prefilled: Vec<(String, Vec<Ev>)>,
+    /// build the Cli with the deprecated `Cli::new` instead of the builder
+    pub deprecated_ctor: bool,
 }
 
 pub struct SessModel<C> {
@@ -93,6 +95,10 @@ pub fn framed(out: &str) -> String {
 }
 
 impl<C: Autocomplete + Help> SessModel<C> {
+    pub fn invariants_pub(&self, sn: &Snap, v: &mut Vec<Viol>) {
+        self.invariants(sn, v)
+    }
+
     fn invariants(&self, sn: &Snap, v: &mut Vec<Viol>) {
         let p = self.cfg.prop;
         if let Some(b) = &sn.broken {
@@ -618,7 +624,11 @@ impl<C: Autocomplete + Help> Model for SessModel<C> {
     }
 
     fn inits(&self) -> Vec<(String, Sess)> {
-        let base = new_sess(self.cfg.cb, self.cfg.hb, self.cfg.prompt, self.cfg.short_sink);
+        let base = if self.cfg.deprecated_ctor {
+            new_sess_deprecated(self.cfg.cb, self.cfg.hb, self.cfg.short_sink)
+        } else {
+            new_sess(self.cfg.cb, self.cfg.hb, self.cfg.prompt, self.cfg.short_sink)
+        };
         let mut v = vec![("initial".to_string(), base.clone())];
         for (label, evs) in &self.cfg.prefilled {
             let mut s = base.clone();
@@ -700,9 +710,6 @@ impl<C: Autocomplete + Help> Model for SessModel<C> {
         let mut n = n;
         n.term.lfs = 0; // not part of the state; avoid unbounded growth
         let expand = viols.is_empty();
-        StepOut {
-            next: if expand { Some(n) } else { None },
-            viols,
-        }
+        StepOut::new(if expand { Some(n) } else { None }, viols)
     }
 }
